@@ -145,12 +145,18 @@ static inline cbor_item_t *mk_array(void) {
   return it;
 }
 
+/* Pair storage: arrays of two-pointer structs of SYMBOLIC length made every map proof run out of memory
+ * (MiniSat, CaDiCaL, cvc5, 24 GB).  Map proofs therefore define VERIF_MAP_CAP (a small capacity bound) and are
+ * registered as bounded stand-ins; the same code shapes are proved without bound for arrays. */
+#ifndef VERIF_MAP_CAP
+#define VERIF_MAP_CAP VERIF_MAXCNT
+#endif
 static inline cbor_item_t *mk_map(void) {
   cbor_item_t *it = mk_hdr(0);
   it->type = CBOR_TYPE_MAP;
   it->metadata.map_metadata.type = nondet_bool() ? _CBOR_METADATA_DEFINITE : _CBOR_METADATA_INDEFINITE;
   size_t a = nondet_size(), e = nondet_size();
-  __CPROVER_assume(e <= a && a <= VERIF_MAXCNT);
+  __CPROVER_assume(e <= a && a <= VERIF_MAP_CAP);
   it->metadata.map_metadata.allocated = a;
   it->metadata.map_metadata.end_ptr = e;
   if (a == 0 && it->metadata.map_metadata.type == _CBOR_METADATA_INDEFINITE)
